@@ -42,12 +42,12 @@ OFFSETS = [0, 1, 5, 255, 256, 65535, 65536]
 
 def plan(tier, seed):
     jobs = [{"name": "appnotes", "spec": {"kind": "appnotes"}}]
-    n = 12000 if tier == "quick" else 150000
+    n = 12000 if tier == "quick" else 400000
     for i in range(NSH):
         jobs.append({"name": "bf3_%02d" % i, "spec": {"kind": "bf3", "n": n // NSH, "many": i < (1 if tier == "quick" else 4)}})
     for i in range(4 if tier == "quick" else 16):
         jobs.append({"name": "hist%02d" % i, "spec": {"kind": "histories", "n": 120 if tier == "quick" else 4000}})
-    nb = 1280 if tier == "quick" else 16000
+    nb = 1280 if tier == "quick" else 40000
     for i in range(NSH):
         jobs.append({"name": "bec2_%02d" % i, "spec": {"kind": "bec2", "n": nb // NSH, "i": i}})
     return jobs
